@@ -304,7 +304,7 @@ def part_b(i, tag, case, cnt, out):
                                 # elimination: only ballots left with no surviving choice may vanish
                                 if drop > prev_sc.get(X[0], 0):
                                     msg = f"eliminating {X[0]} (tally {prev_sc.get(X[0])}) lost {drop}"
-                                elif v.status == "ok" and r < len(v.per_round) + 0:
+                                elif len(v.per_round) >= r:
                                     exps = set()
                                     for (B, rem, nel) in v.per_round[r - 1]:
                                         exps.add(sum((w for rk, w in B.items() if all(c == X[0] for c in rk)), F(0)))
@@ -319,7 +319,7 @@ def part_b(i, tag, case, cnt, out):
                                     if not (lo <= drop <= hi):
                                         msg = (f"electing {E} (tallies {[str(prev_sc[c]) for c in E]}, threshold {thr}) "
                                                f"changed the total by {drop}, outside [{lo},{hi}]")
-                                    elif v.status == "ok" and tr == "fractional":
+                                    elif len(v.per_round) >= r and tr == "fractional":
                                         exps = set()
                                         for (B, rem, nel) in v.per_round[r - 1]:
                                             tt = refs.tallies(B, rem)
